@@ -110,6 +110,14 @@ def pb_explore(ctx, exe, scen, label, bound, cap, nproc=8):
                     if used + cost <= bound:
                         near = [k for k in (kinds[i - 1] if 0 < i <= len(kinds) else "", kinds[i] if i < len(kinds) else "") if k and not k.startswith(("Load", "CallStart"))]
                         nxt.append((ch[:i] + [a], used + cost, 0 if near else 1))
+        # a schedule that exhausts the step budget under the non-preemptive tail is run again with a fair (round-robin) tail: only a
+        # call that does not return under a FAIR schedule is reported as non-terminating
+        sus = [x for x in res if x.get("nonterm") and not x.get("fin_hang")]
+        if sus:
+            by = {j["id"]: j for j in jobs}
+            again = run_jobs(ctx, exe, scen, [{"id": x["id"], "mode": "choices", "choices": by[x["id"]]["choices"]} for x in sus], "pbfair%s%d" % (label, wave), nproc=nproc)
+            fair = {x["id"]: x for x in again}
+            res = [fair.get(x["id"], x) if (x.get("nonterm") and not x.get("fin_hang")) else x for x in res]
         results += res
         frontier = nxt
         wave += 1
